@@ -69,4 +69,15 @@ def viewH (c : Cfg) : List String :=
     | some n => "{" ++ content fuel c.objs (Kind.certmap, n) ++ "}"
     | none => "?") ++ " -> " ++ content fuel c.objs (Kind.tg, r.tg))
 
+/-- managed: what the anchors of fragment G and the rules reach -/
+def managedSetH (c : Cfg) : List Ref :=
+  ((c.tgmap ++ c.web.getD []).flatMap (·.refs)).foldl (fun acc r => reach fuel c.objs acc r) (managedSet c.objs)
+
+/-- objects outside Netspoc's scope: not reachable from an anchor or a rule, name without the tag — and what they reference -/
+def unmanagedSetH (c : Cfg) : List Ref :=
+  let m := managedSetH c
+  ((c.objs.filter fun o => !m.contains o.id && !o.drc).foldl (fun acc o => reach fuel c.objs acc o.id) [])
+
+def frameH (c0 : Cfg) (objs : List Obj) : List (Option Obj) := (unmanagedSetH c0).map fun r => objs.find? fun o => o.id == r
+
 end NA.Vpn.G
